@@ -397,6 +397,11 @@ Proof.
   apply nosave_bind; [apply get_client_nosave|]. intros [c|]; cbn; auto.
   destruct (c_public c || cr_ok cr)%bool; cbn; auto.
 Qed.
+Lemma jwt_bearer_client_nosave w cr : nosave (jwt_bearer_client w cr).
+Proof.
+  unfold jwt_bearer_client. apply nosave_bind; [apply authenticated_nosave|]. intros [c|]; cbn; auto.
+  destruct (_ && _)%bool; cbn; auto.
+Qed.
 Lemma introspection_info_nosave now p : nosave (introspection_info now p).
 Proof.
   unfold introspection_info. destruct (classify p); cbn; auto; (split; auto; intros r; destruct r; cbn; auto);
